@@ -12,13 +12,13 @@ RULE = ('consumer probes whose parameters are bound (by config text) to value tr
         'identities across calls, delivered structure; queries/config strings/next reception unchanged by consumer mutation. '
         'distinct = (tree shape, reference kinds, ambient depth, override pattern, #calls)')
 TIERS = {
-    'quick': {'workers': 8, 'cases': 500, 'timeout': 600},
+    'quick': {'workers': 8, 'cases': 1000, 'timeout': 600},
     'thorough': {'workers': 16, 'cases': 15000, 'timeout': 3000},
 }
 REQUIRED_BUCKETS = ['ref:unevaluated', 'ref:evaluated', 'ref:scoped-evaluated', 'ref:scoped-unevaluated', 'ref:macro', 'ref:in-list', 'ref:in-tuple', 'ref:in-dict-value',
                     'ref:as-dict-key', 'ref:depth3', 'graph:nested-provider', 'graph:scoped-outer-unscoped-inner', 'ambient:depth0', 'ambient:depth2+',
                     'override:positional', 'override:keyword', 'override:none', 'calls:3+', 'mutation:applied', 'delivered-fn-called',
-                    'override:keyword-on-evaluated-ref', 'override:positional-on-evaluated-ref']
+                    'override:keyword-on-evaluated-ref', 'override:positional-on-evaluated-ref', 'history:scoped-reference-left-by-BaseException']
 ORACLE_COUNTERS = ['oracle_evals', 'consumer_calls', 'provider_call_multisets_compared', 'mutation_snapshots_compared']
 _S = {}
 
@@ -31,6 +31,9 @@ def setup(ctx):
                                         'varargs': False, 'kwonly': [], 'varkw': False})
   _S['provs'] = provs
   _S['by_pid'] = {p.pid: n for n, p in provs.items()}
+  from vf.checks import c01
+  if 'c1.c1interrupt' not in gin.config._REGISTRY:
+    c01.setup(ctx)
 
 
 # value trees: ['lit', v] | ['ref', prov, [scopes], evaluate] | ['macro', name] | ['list', items] | ['tuple', items] | ['dict', [[k, v]...]]
@@ -123,7 +126,8 @@ def iter_cases(ctx, rng, n):
           prefix = False
           if r < 0.45:
             over['p%d' % j] = 'kw'
-      calls.append({'ambient': ambient, 'over': over, 'mutate': rng.random() < 0.8, 'fn_scope': [rng.choice(['q', 'a'])] if rng.random() < 0.5 else []})
+      calls.append({'ambient': ambient, 'over': over, 'mutate': rng.random() < 0.8, 'fn_scope': [rng.choice(['q', 'a'])] if rng.random() < 0.5 else [],
+                    'interrupted_scoped_call_before': rng.random() < 0.15})
     yield {'spec': spec, 'trees': trees, 'graph': graph, 'macros': macros, 'calls': calls,
            'bind_scope': rng.choice(['', '', 'a'])}
 
@@ -246,6 +250,7 @@ def run_case(ctx, case):
   pre = case['bind_scope'] + '/' if case['bind_scope'] else ''
   for prm, t in case['trees'].items():
     lines.append('%s%s.%s = %s' % (pre, p.name, prm, tree_text(t)))
+  lines.append('c1pre/c1cons.x = @leaked2/c1interrupt()')
   text = '\n'.join(lines) + '\n'
   gin.parse_config(text)
   feats = set()
@@ -269,6 +274,11 @@ def run_case(ctx, case):
 
   for ci, call in enumerate(case['calls']):
     ambient = call['ambient']
+    if call.get('interrupted_scoped_call_before'):
+      # a scoped reference / scoped configurable left by a BaseException must not leave its scope behind
+      from vf.checks import c01
+      ctx.bucket('history:scoped-reference-left-by-BaseException')
+      c01.prelude(gin, bind=False)
     ctx.bucket('ambient:depth0' if not ambient else ('ambient:depth2+' if len(ambient) >= 2 else 'ambient:depth1'))
     snap_before = (gin.config_str(), [canon(gin.query_parameter(k)) for k in keys],
                    canon(gin.get_bindings(p.selector, resolve_references=False)), snap.store_nonempty())
